@@ -714,7 +714,7 @@ def key_cases(ctx, env, n, items=None):
     items = list(items or [])
     for _ in range(n):
         rel = [ctx.rng.choice(DIRS) for _ in range(ctx.rng.randint(0, 3))] + [ctx.rng.choice(BASES)]
-        tasks = ctx.rng.choice([[], ["go"], ["stop"], ["go", "stop"], ["nosuch"], ["go_run-1"], [""]])
+        tasks = ctx.rng.choice([[], ["go"], ["stop"], ["go", "stop"], ["nosuch"], ["go_run-1"], [""], ["", "go"], ["x", "stop", ""]])
         items.append((rel, tasks))
     ans = mbatch(ctx, [{"op": "c18.key", "path": rel, "tasks": tasks, "stamp": STAMP} for rel, tasks in items])
     for (rel, tasks), a in zip(items, ans):
